@@ -105,7 +105,9 @@ impl C03 {
         let start = first.info.assets.choose(&mut self.rng).unwrap().denom.clone();
         let mut cur = start.clone();
         let mut path: Vec<(String, String, String)> = vec![]; // pool, in, out
-        let len = self.rng.gen_range(1..=3usize);
+        // one trip in three goes through the router: each leg is one routed message of 2..5 hops
+        let via_router = self.rng.gen_range(0..3) == 0;
+        let len = if via_router { self.rng.gen_range(2..=5usize) } else { self.rng.gen_range(1..=3usize) };
         for h in 0..len {
             let cands: Vec<&&PoolView> = funded
                 .iter()
@@ -143,12 +145,27 @@ impl C03 {
         let margins_cell: std::cell::RefCell<Vec<(usize, f64)>> = std::cell::RefCell::new(vec![]);
         let mut ok = true;
 
-        let mut run_hop = |w: &mut World, rep: &mut Reporter, pool: &str, din: &str, dout: &str, amt: u128, dust: &mut Vec<(f64, f64, String, usize)>, executed: &mut Vec<(u128, u128, String, String)>, touches_ss: &mut bool, all_cp: &mut bool| -> Option<u128> {
-            if amt == 0 {
+        let mut run_leg = |w: &mut World, rep: &mut Reporter, hops: &[(String, String, String)], amt: u128, dust: &mut Vec<(f64, f64, String, usize)>, executed: &mut Vec<(u128, u128, String, String)>, touches_ss: &mut bool, all_cp: &mut bool| -> Option<u128> {
+            if amt == 0 || hops.is_empty() {
                 return Some(0);
             }
             let pre = observe(w);
-            let op = swap_op(&trader, pool, coin(amt, din), dout, None, slip, None);
+            let last_denom = hops[hops.len() - 1].2.clone();
+            let b0 = w.balance(&trader, &last_denom);
+            let op = if hops.len() == 1 {
+                swap_op(&trader, &hops[0].0, coin(amt, hops[0].1.clone()), &hops[0].2, None, slip, None)
+            } else {
+                crate::ops::Op::Pm {
+                    sender: trader.clone(),
+                    msg: mantra_dex_std::pool_manager::ExecuteMsg::ExecuteSwapOperations {
+                        operations: hops.iter().map(|(pool, din, dout)| mantra_dex_std::pool_manager::SwapOperation::MantraSwap { token_in_denom: din.clone(), token_out_denom: dout.clone(), pool_identifier: pool.clone() }).collect(),
+                        minimum_receive: None,
+                        receiver: None,
+                        max_slippage: slip,
+                    },
+                    funds: vec![coin(amt, hops[0].1.clone())],
+                }
+            };
             let out = w.apply(&op);
             if !out.is_ok() {
                 return None;
@@ -177,13 +194,19 @@ impl C03 {
                     executed.push((sw.offer_amount, sw.return_amount, sw.offer_denom.clone(), sw.ask_denom.clone()));
                 }
             }
+            // what the trader really received for the leg (a routed leg pays once, at its end)
+            if hops.len() > 1 {
+                let paid_in_same = if hops[0].1 == last_denom { amt } else { 0 };
+                got = (w.balance(&trader, &last_denom) + paid_in_same).saturating_sub(b0);
+            }
             Some(got)
         };
 
         // forward
         let mut amt = amount;
-        for (pool, din, dout) in &path {
-            match run_hop(w, rep, pool, din, dout, amt, &mut dust, &mut executed, &mut touches_ss, &mut all_cp) {
+        let fwd_legs: Vec<Vec<(String, String, String)>> = if via_router { vec![path.clone()] } else { path.iter().map(|h| vec![h.clone()]).collect() };
+        for leg in &fwd_legs {
+            match run_leg(w, rep, leg, amt, &mut dust, &mut executed, &mut touches_ss, &mut all_cp) {
                 Some(g) => amt = g,
                 None => {
                     ok = false;
@@ -199,8 +222,10 @@ impl C03 {
                 let part = if c == chunks - 1 { left } else { (total / chunks).min(left) };
                 left -= part;
                 let mut a = part;
-                for (pool, din, dout) in path.iter().rev() {
-                    match run_hop(w, rep, pool, dout, din, a, &mut dust, &mut executed, &mut touches_ss, &mut all_cp) {
+                let back: Vec<(String, String, String)> = path.iter().rev().map(|(pool, din, dout)| (pool.clone(), dout.clone(), din.clone())).collect();
+                let back_legs: Vec<Vec<(String, String, String)>> = if via_router { vec![back] } else { back.into_iter().map(|h| vec![h]).collect() };
+                for leg in &back_legs {
+                    match run_leg(w, rep, leg, a, &mut dust, &mut executed, &mut touches_ss, &mut all_cp) {
                         Some(g) => a = g,
                         None => {
                             ok = false;
@@ -215,10 +240,10 @@ impl C03 {
         }
         if ok {
             let x1 = w.balance(&trader, &start);
-            let abs = hash_of(&(path.len(), chunks, all_cp, (amount as f64).log10() as i32, path.iter().map(|p| p.0.clone()).collect::<Vec<_>>()));
+            let abs = hash_of(&(path.len(), via_router, chunks, all_cp, (amount as f64).log10() as i32, path.iter().map(|p| p.0.clone()).collect::<Vec<_>>()));
             if x1 <= x0 {
                 rep.held("round_trip", abs, || {
-                    json!({"path": path, "amount": amount.to_string(), "return_chunks": chunks, "start_balance": x0.to_string(), "end_balance": x1.to_string()})
+                    json!({"path": path, "each_leg_one_routed_message": via_router, "amount": amount.to_string(), "return_chunks": chunks, "start_balance": x0.to_string(), "end_balance": x1.to_string()})
                 });
             } else {
                 let gain = x1 - x0;
